@@ -1,0 +1,237 @@
+//go:build verif
+
+package main
+
+// Verification hook (build tag verif): feeds a delivery history (BLOCK packet payloads in arrival order, written by the
+// verification harness) to a fresh node over a real LMDB store, starts the node's real JSON-RPC server and records what
+// get_info, get_transaction, get_block_by_height, get_block_by_hash, get_address and get_tx_list answer over HTTP for the
+// listed transaction ids, block hashes, heights and addresses. Nothing is judged here: the answers go to VERIF_RPC_OUT.
+// Runs only when VERIF_RPC_HIST names the input file.
+
+import (
+	"bytes"
+	"encoding/hex"
+	"encoding/json"
+	"fmt"
+	"io"
+	"net"
+	"net/http"
+	"os"
+	"testing"
+	"time"
+
+	"github.com/virel-project/virel-blockchain/v3/adb/lmdb"
+	"github.com/virel-project/virel-blockchain/v3/blockchain"
+	"github.com/virel-project/virel-blockchain/v3/logger"
+	"github.com/virel-project/virel-blockchain/v3/p2p"
+)
+
+type vhIn struct {
+	Blocks    []string // hex of the wire form, in arrival order
+	TxIDs     []string
+	Hashes    []string // block hashes (also asked as transaction ids: the coinbase)
+	Addresses []string // text form
+	MaxHeight uint64
+}
+
+type vhTx struct {
+	Found    bool
+	Height   uint64
+	Coinbase bool
+	Err      string
+}
+
+type vhBlock struct {
+	Found  bool
+	Hash   string
+	Height uint64
+}
+
+type vhList struct {
+	OK           bool
+	LastIncoming uint64
+	LastNonce    uint64
+	Incoming     []string
+	Outgoing     []string
+	Pages        int
+}
+
+type vhOut struct {
+	Height   uint64
+	TopHash  string
+	Tx       map[string]vhTx    // by transaction id
+	Coinbase map[string]vhTx    // by block hash, asked through get_transaction
+	ByHeight []vhBlock          // heights 0..MaxHeight+2
+	ByHash   map[string]vhBlock // by block hash
+	Lists    map[string]vhList  // by address text
+	Stages   []int              // VerifDeliverRaw's stage per delivery
+}
+
+func TestVerifRpcHistory(t *testing.T) {
+	inPath, outPath := os.Getenv("VERIF_RPC_HIST"), os.Getenv("VERIF_RPC_OUT")
+	if inPath == "" || outPath == "" {
+		t.Skip("VERIF_RPC_HIST / VERIF_RPC_OUT not set")
+	}
+	raw, err := os.ReadFile(inPath)
+	if err != nil {
+		t.Fatal(err)
+	}
+	var in vhIn
+	if err := json.Unmarshal(raw, &in); err != nil {
+		t.Fatal(err)
+	}
+	dir := t.TempDir()
+	db, err := lmdb.New(dir+"/lmdb/", 0o700, logger.DiscardLog)
+	if err != nil {
+		t.Fatal(err)
+	}
+	blockchain.Log.SetLogLevel(0)
+	Log.SetLogLevel(0)
+	bc := blockchain.New(dir, db)
+	bc.P2P = &p2p.P2P{Connections: map[string]*p2p.Connection{}}
+	bc.Stratum = nil
+	out := vhOut{Tx: map[string]vhTx{}, Coinbase: map[string]vhTx{}, ByHash: map[string]vhBlock{}, Lists: map[string]vhList{}}
+	for _, b := range in.Blocks {
+		data, err := hex.DecodeString(b)
+		if err != nil {
+			t.Fatal(err)
+		}
+		stage := -1
+		func() {
+			defer func() { recover() }()
+			stage, _, _ = bc.VerifDeliverRaw(data)
+		}()
+		out.Stages = append(out.Stages, stage)
+	}
+
+	ln, err := net.Listen("tcp", "127.0.0.1:0")
+	if err != nil {
+		t.Fatal(err)
+	}
+	port := ln.Addr().(*net.TCPAddr).Port
+	ln.Close()
+	startRpc(bc, "127.0.0.1", uint16(port), false)
+	url := fmt.Sprintf("http://127.0.0.1:%d/", port)
+	type reply struct {
+		Result json.RawMessage `json:"result"`
+		Error  *struct {
+			Code    int    `json:"code"`
+			Message string `json:"message"`
+		} `json:"error"`
+	}
+	call := func(method string, params any) reply {
+		body, _ := json.Marshal(map[string]any{"jsonrpc": "2.0", "id": 1, "method": method, "params": params})
+		var resp *http.Response
+		for try := 0; try < 50; try++ {
+			resp, err = http.Post(url, "application/json", bytes.NewReader(body))
+			if err == nil {
+				break
+			}
+			time.Sleep(100 * time.Millisecond)
+		}
+		if err != nil {
+			t.Fatal(err)
+		}
+		defer resp.Body.Close()
+		rawb, _ := io.ReadAll(resp.Body)
+		var r reply
+		json.Unmarshal(rawb, &r)
+		return r
+	}
+	getTx := func(id string) vhTx {
+		r := call("get_transaction", map[string]any{"txid": id})
+		if r.Error != nil || r.Result == nil {
+			msg := "no result"
+			if r.Error != nil {
+				msg = r.Error.Message
+			}
+			return vhTx{Err: msg}
+		}
+		var x struct {
+			Height   uint64 `json:"height"`
+			Coinbase bool   `json:"coinbase"`
+		}
+		json.Unmarshal(r.Result, &x)
+		return vhTx{Found: true, Height: x.Height, Coinbase: x.Coinbase}
+	}
+	getBlock := func(method string, params any) vhBlock {
+		r := call(method, params)
+		if r.Error != nil || r.Result == nil {
+			return vhBlock{}
+		}
+		var x struct {
+			Hash  string `json:"hash"`
+			Block struct {
+				Header struct {
+					Height uint64 `json:"height"`
+				} `json:"header"`
+			} `json:"block"`
+		}
+		json.Unmarshal(r.Result, &x)
+		return vhBlock{Found: true, Hash: x.Hash, Height: x.Block.Header.Height}
+	}
+
+	{
+		r := call("get_info", map[string]any{})
+		var x struct {
+			Height  uint64 `json:"height"`
+			TopHash string `json:"top_hash"`
+		}
+		json.Unmarshal(r.Result, &x)
+		out.Height, out.TopHash = x.Height, x.TopHash
+	}
+	for _, id := range in.TxIDs {
+		out.Tx[id] = getTx(id)
+	}
+	for _, h := range in.Hashes {
+		out.Coinbase[h] = getTx(h)
+		out.ByHash[h] = getBlock("get_block_by_hash", map[string]any{"hash": h})
+	}
+	for h := uint64(0); h <= in.MaxHeight+2; h++ {
+		out.ByHeight = append(out.ByHeight, getBlock("get_block_by_height", map[string]any{"height": h}))
+	}
+	for _, a := range in.Addresses {
+		var l vhList
+		r := call("get_address", map[string]any{"address": a})
+		if r.Error == nil && r.Result != nil {
+			var x struct {
+				LastNonce    uint64 `json:"last_nonce"`
+				LastIncoming uint64 `json:"last_incoming"`
+			}
+			json.Unmarshal(r.Result, &x)
+			l.OK, l.LastNonce, l.LastIncoming = true, x.LastNonce, x.LastIncoming
+		}
+		for _, typ := range []string{"incoming", "outgoing"} {
+			// page 0 holds the newest entries: walk from the last page down and concatenate
+			first := call("get_tx_list", map[string]any{"address": a, "transfer_type": typ, "page": 0})
+			var f struct {
+				MaxPage uint64 `json:"max_page"`
+			}
+			if first.Result != nil {
+				json.Unmarshal(first.Result, &f)
+			}
+			var all []string
+			for p := int64(f.MaxPage); p >= 0; p-- {
+				r := call("get_tx_list", map[string]any{"address": a, "transfer_type": typ, "page": p})
+				var x struct {
+					Transactions []string `json:"transactions"`
+				}
+				if r.Result != nil {
+					json.Unmarshal(r.Result, &x)
+				}
+				all = append(all, x.Transactions...)
+				l.Pages++
+			}
+			if typ == "incoming" {
+				l.Incoming = all
+			} else {
+				l.Outgoing = all
+			}
+		}
+		out.Lists[a] = l
+	}
+	b, _ := json.Marshal(out)
+	if err := os.WriteFile(outPath, b, 0o644); err != nil {
+		t.Fatal(err)
+	}
+}
